@@ -4,6 +4,10 @@ Parts (case kinds):
   rank    synthetic ordering rulebooks (disjoint sibling languages, depth <= 3, %order_reverse pins, %global) x patches of the
           real make_patch over two small patching rulebooks and random (old,new): ref_rank(c1) < ref_rank(c2) => c1 before c2;
           removal before re-creation of one (rule,key); multiset(paths(sorted patch)) == multiset(paths(unsorted patch))
+          the rulebooks contain %order_reverse pins written with the negation word (`undo a %order_reverse`) and without it
+          (`x %order_reverse`, pinning the command `x N` that removes the negated config row `undo x N`); whether a command is a
+          removal is known from the inputs (it is not a row of the new configuration at its place)
+  shipped_pin  huawei.order `portswitch %order_reverse` under `interface *` against its neighbours, ranks read from the order file
   sort    PatchTree.sort on synthetic trees with arbitrary sort keys: stable sort by key at every depth, nothing lost
   shipped shipped *.order files x corpus tests/annet/test_patch/*.yaml: deleting (or inserting) an unrelated top-level row in
           both old and new leaves the relative order of the remaining commands unchanged
@@ -26,6 +30,33 @@ setup_annet()
 
 R2 = g.R1.replace("a *\n", "a 1\na 2\n").replace("    a 1\na 2\n", "    a 1\n    a 2\n").replace("        a 1\n    a 2\n", "        a 1\n        a 2\n")
 RULS = {"R1": g.R1, "R2": R2}
+
+
+def rul_text(name, neg):
+    """the patching rulebook `name` plus the family x of NEGATED config rows: the config row is `<neg> x N`, its removal is
+    the command `x N` (what `portswitch` is to `undo portswitch` on huawei)"""
+    return RULS[name].replace("blk *\n", "%s x *\nblk *\n    %s x *\n" % (neg, neg))
+
+
+def add_x(rnd, old, new, neg, p=0.45):
+    """sprinkle the negated config rows `<neg> x 1|2` over old / new (top level and inside blk blocks)"""
+    def one(o_rows, n_rows):
+        for k in ("1", "2"):
+            row = "%s x %s" % (neg, k)
+            x = rnd.random()
+            if x < p * 0.5:
+                o_rows.insert(rnd.randint(0, len(o_rows)), [row, []])
+            elif x < p * 0.8:
+                n_rows.insert(rnd.randint(0, len(n_rows)), [row, []])
+            elif x < p:
+                o_rows.insert(rnd.randint(0, len(o_rows)), [row, []])
+                n_rows.insert(rnd.randint(0, len(n_rows)), [row, []])
+    one(old, new)
+    nd = dict((r, c) for r, c in new)
+    for r, c in old:
+        if r.startswith("blk") and r in nd:
+            one(c, nd[r])
+    return old, new
 
 
 # ---------------------------------------------------------------------------------------------------------------------
@@ -55,6 +86,18 @@ def rand_order_text(rnd, neg):
                             entries.append(["%s %s %s %%order_reverse" % (neg, f, k)])
             elif rnd.random() < 0.15:
                 entries.append(["%s %s %%order_reverse" % (neg, f)])
+        if depth < 2:
+            # family x (negated config rows): the rule is written WITH the negation word (`<neg> x`), the pin of the removal
+            # command `x N` is written WITHOUT it (`x %order_reverse`, like huawei `portswitch %order_reverse`)
+            mode = rnd.choice(["none", "pin", "pin", "rule", "rule+pin", "rule+pin", "splitpin"])
+            if mode in ("rule", "rule+pin"):
+                entries.append(["%s x" % neg])
+            if mode in ("pin", "rule+pin"):
+                entries.append(["x %order_reverse"])
+            if mode == "splitpin":
+                for k in ("1", "2"):
+                    if rnd.random() < 0.8:
+                        entries.append(["x %s %%order_reverse" % k])
         blk = "blk" if depth == 0 else ("sub" if depth == 1 else None)
         if blk:
             mode = rnd.choice(["none", "fam", "fam", "split"]) if depth == 0 else rnd.choice(["none", "fam", "fam"])
@@ -82,16 +125,30 @@ def _is_global(r):
     return g.truthy(r.params.get("global", "0"))
 
 
-def ref_rank(row, rules, neg):
-    """rank of a patch command among its siblings under the applicable rule list `rules`; None = unranked"""
-    removal = row.startswith(neg + " ")
+def _negated_form(tokens, neg):
+    return tokens[1:] if tokens[0] == neg and len(tokens) > 1 else [neg] + tokens
+
+
+def ref_rank(row, rules, neg, removal=None):
+    """rank of a patch command among its siblings under the applicable rule list `rules`; None = unranked.
+    removal: is the command a removal?  Known from the INPUTS (the command is not a row of the new configuration at its place);
+    when not given, from the text (starts with the negation word).
+      * a removal whose text a %order_reverse rule matches is pinned at that rule's position: (1, line) -- whether the rule is
+        written with the negation word (`undo a %order_reverse` pins `undo a 1`) or without (`x %order_reverse` pins `x 1`,
+        the removal of the config row `undo x 1`);
+      * otherwise a removal matched through the negated form of a rule goes first, mirrored: (0, -line);
+      * a command that is not a removal is placed by the plain rule that matches its text: (1, line);
+      * anything else (incl. a removal that an unpinned rule matches only by its direct text, and a non-removal that a rule
+        matches only through its negated form) is left unranked: the statement is silent about it."""
+    if removal is None:
+        removal = row.startswith(neg + " ")
     if removal:
         pins = [r for r in rules if _is_pin(r) and g.tokens_match(r.tokens, row)]
         if len(pins) > 1:
             raise ScopeError("two pins match %r" % row)
         if pins:
             return (1, pins[0].line)
-        cands = [r for r in rules if not _is_pin(r) and (g.tokens_match([neg] + r.tokens, row) or g.tokens_match(r.tokens, row))]
+        cands = [r for r in rules if not _is_pin(r) and g.tokens_match(_negated_form(r.tokens, neg), row)]
         if len(cands) > 1:
             raise ScopeError("sibling rules overlap on %r" % row)
         return (0, -cands[0].line) if cands else None
@@ -101,9 +158,9 @@ def ref_rank(row, rules, neg):
     return (1, cands[0].line) if cands else None
 
 
-def child_rules(row, rules, neg):
+def child_rules(row, rules, neg, removal=None):
     """rules that apply inside the block whose header is `row`"""
-    if row.startswith(neg + " "):
+    if removal if removal is not None else row.startswith(neg + " "):
         return []
     own = [r for r in rules if not _is_pin(r) and g.tokens_match(r.tokens, row)]
     if len(own) > 1:
@@ -115,18 +172,23 @@ def child_rules(row, rules, neg):
 
 def _patching_rule(prules, row, neg):
     base = row[len(neg) + 1:] if row.startswith(neg + " ") else row
-    for r in prules or []:
-        if g.tokens_match(r.tokens, base):
-            return r
+    for cand in (base, neg + " " + row):
+        for r in prules or []:
+            if g.tokens_match(r.tokens, cand):
+                return r
     return None
 
 
-def check_ranked(nested, rules, neg, path=(), prules=None):
+def check_ranked(nested, rules, neg, path=(), prules=None, new_cfg=None):
     """-> list of (key, text, expected, actual) for the patch block `nested` ([[row, child|None], ...]);
-    prules: the patching rules of this block (own reading of the patching rulebook), used to name the failure class only"""
+    prules: the patching rules of this block (own reading of the patching rulebook), used to name the failure class only;
+    new_cfg: the rows of the NEW configuration at this place ([[row, children], ...]): a command that is not among them is a
+    removal"""
     fails = []
     rows = [r for r, _ in nested]
-    ranks = [ref_rank(r, rules, neg) for r in rows]
+    new_rows = dict((r, c) for r, c in (new_cfg or []))
+    removal = [(r not in new_rows) if new_cfg is not None else None for r in rows]
+    ranks = [ref_rank(r, rules, neg, rm) for r, rm in zip(rows, removal)]
     first_line = min((r.line for r in rules), default=None)
     done = False
     for j in range(len(rows)):
@@ -147,10 +209,11 @@ def check_ranked(nested, rules, neg, path=(), prules=None):
         if rec and rec[0] < rows.index(und):
             fails.append(("bounded:C08:patch-order:re-creation-before-removal", "in block %r %r comes before %r" % (list(path), rows[rec[0]], und),
                           "%r first" % und, rows))
-    for row, child in nested:
+    for (row, child), rm in zip(nested, removal):
         if child:
             pr = _patching_rule(prules, row, neg)
-            fails += check_ranked(child, child_rules(row, rules, neg), neg, path + (row,), pr.children if pr else None)
+            fails += check_ranked(child, child_rules(row, rules, neg, rm), neg, path + (row,), pr.children if pr else None,
+                                  (new_rows.get(row, []) if new_cfg is not None else None))
     return fails
 
 
@@ -163,14 +226,14 @@ def check_rank_case(case):
     vendor = case["vendor"]
     neg = g.VENDORS[vendor]["neg"]
     hw = g.hw_of(g.VENDORS[vendor]["models"][0])
-    rb = g.compile_rb(vendor, RULS[case["rul"]], case["order"])
+    rb = g.compile_rb(vendor, rul_text(case["rul"], neg), case["order"])
     rules = g.parse_rules(case["order"])
     old, new = g.to_tree(case["old"]), g.to_tree(case["new"])
     pt = g.real_patch(hw, rb, old, new)
     nested = g.pt_nested(pt)
     fails = []
     try:
-        fails += check_ranked(nested, sorted(rules, key=lambda r: r.line), neg, (), g.parse_rules(RULS[case["rul"]]))
+        fails += check_ranked(nested, sorted(rules, key=lambda r: r.line), neg, (), g.parse_rules(rul_text(case["rul"], neg)), case["new"])
     except ScopeError:
         return [], False
     with mock.patch.object(patching.PatchTree, "sort", lambda self: None):
@@ -179,8 +242,9 @@ def check_rank_case(case):
     if a != b:
         fails.append(("bounded:C08:patch-sort-changes-path-multiset", "sorting the patch lost / duplicated / moved a command across blocks",
                       sorted(map(list, a.elements())), sorted(map(list, b.elements()))))
-    ranked = sum(1 for r, _ in nested if ref_rank(r, rules, neg) is not None)
-    return fails, ranked >= 2 and any(r.startswith(neg + " ") for r, _ in nested)
+    top_new = {r for r, _ in case["new"]}
+    ranked = sum(1 for r, _ in nested if ref_rank(r, rules, neg, r not in top_new) is not None)
+    return fails, ranked >= 2 and any(r not in top_new for r, _ in nested)
 
 
 # ---------------------------------------------------------------------------------------------------------------------
@@ -275,6 +339,93 @@ def check_shipped_case(case):
 
 
 # ---------------------------------------------------------------------------------------------------------------------
+# shipped %order_reverse rows: the pinned removal next to lower / higher ranked siblings
+def shipped_rank(row, removal, rules, neg):
+    """ref_rank over a shipped order file, by the conservative word matcher can_match: a rank is given only when exactly one
+    rule of the relevant kind can match and no rule is undecidable (the shipped files resolve overlaps by a best-match weight
+    that the statement does not describe)"""
+    def hits(rs, form):
+        res = [(r, can_match(form(r), row)) for r in rs]
+        if any(m is None for _, m in res):
+            return None
+        return [r for r, m in res if m]
+    pins = [r for r in rules if _is_pin(r)]
+    plain = [r for r in rules if not _is_pin(r)]
+    if removal:
+        hp = hits(pins, lambda r: r.tokens)
+        if hp is None or len(hp) > 1:
+            return None
+        if hp:
+            return (1, hp[0].line)
+        hn = hits(plain, lambda r: _negated_form(r.tokens, neg))
+        if hn is None or len(hn) != 1:
+            return None
+        return (0, -hn[0].line)
+    hd = hits(plain, lambda r: r.tokens)
+    if hd is None or len(hd) != 1:
+        return None
+    return (1, hd[0].line)
+
+
+def shipped_child_rules(row, rules, neg):
+    own = [(r, can_match(r.tokens, row)) for r in rules if not _is_pin(r)]
+    if any(m is None and r.children for r, m in own):
+        return None
+    out = [c for r, m in own if m for c in r.children] + [r for r in rules if _is_global(r)]
+    return sorted(out, key=lambda r: r.line)
+
+
+def check_shipped_pin_case(case):
+    from annet import rulebook
+    hw = g.hw_of(case["model"])
+    vendor, neg = _neg_of_model(case["model"])
+    rb = rulebook.get_rulebook(hw)
+    nested = g.pt_nested(g.real_patch(hw, rb, g.to_tree(case["old"]), g.to_tree(case["new"])))
+    fails = []
+    n_ranked = [0]
+
+    def walk(block, rules, new_cfg, path):
+        if rules is None:
+            return
+        new_rows = dict((r, c) for r, c in new_cfg)
+        rows = [r for r, _ in block]
+        ranks = [shipped_rank(r, r not in new_rows, rules, neg) for r in rows]
+        n_ranked[0] += sum(1 for x in ranks if x is not None)
+        for j in range(len(rows)):
+            for i in range(j):
+                if ranks[i] is not None and ranks[j] is not None and ranks[j] < ranks[i] and not fails:
+                    fails.append(("bounded:C08:patch-order:shipped-rank-violated",
+                                  "shipped %s.order, block %r: %r (rank %r) comes before %r (rank %r)" % (vendor, list(path), rows[i], ranks[i], rows[j], ranks[j]),
+                                  "%r before %r" % (rows[j], rows[i]), rows))
+        for r, ch in block:
+            if ch and r in new_rows:
+                walk(ch, shipped_child_rules(r, rules, neg), new_rows[r], path + (r,))
+
+    walk(nested, shipped_order_rules(vendor) or [], case["new"], ())
+    return fails, n_ranked[0]
+
+
+def shipped_pin_cases(tier, seed):
+    """huawei.order, block `interface *`: `undo ip address * * %order_reverse`, then `portswitch %order_reverse` (a pin written
+    without the negation word: it places the command `portswitch` that removes the config row `undo portswitch`), then ip binding,
+    ipv6 enable, ...; cisco/iosxr `banner login %order_reverse` and huawei `slot * / cpu-defend-policy %order_reverse` are the
+    first rule of their level (order 0), where pinned and mirrored positions coincide -- nothing to observe there"""
+    rnd = g.rng(seed, "c08shippedpin")
+    opt_old = [["ip address 10.0.0.1 255.255.255.0", []], ["ip address 10.0.1.1 255.255.255.0 sub", []], ["mac-address learning disable", []],
+               ["description x", []], ["mtu 9000", []]]
+    opt_new = [["ipv6 enable", []], ["ip binding vpn-instance V", []], ["description y", []], ["dhcpv6 relay destination 2001:db8::1", []]]
+    for model in ("Huawei", "Huawei CE6870", "Huawei NE40E"):
+        for k in range(8 if tier == "quick" else 60):
+            old_ch = [["undo portswitch", []]] + [x for x in opt_old if rnd.random() < 0.6]
+            new_ch = [x for x in opt_new if rnd.random() < 0.5]
+            rnd.shuffle(old_ch)
+            name = rnd.choice(["GE1/0/1", "100GE1/0/2", "Eth-Trunk5"])
+            extra_old = [["interface 10GE1/0/9", [["undo portswitch", []], ["ip address 10.9.0.1 255.255.255.0", []]]]] if rnd.random() < 0.5 else []
+            extra_new = [["interface 10GE1/0/9", []]] if extra_old else []
+            yield dict(kind="shipped_pin", model=model, old=[["interface " + name, old_ch]] + extra_old, new=[["interface " + name, new_ch]] + extra_new)
+
+
+# ---------------------------------------------------------------------------------------------------------------------
 # order_config
 _WORD = re.compile(r"^[A-Za-z0-9_-]+$")
 _SUSPECT = (".", "\\s", "\\S", "\\W", "\\D", "[^", " ", "(?i)", "$", "~")
@@ -289,6 +440,15 @@ def _tok_match(tok, word):
     m = re.match(r"^\*/(.+)/$", tok)
     rx = m.group(1) if m else tok
     if any(s in rx for s in _SUSPECT):
+        # cannot evaluate the fragment word-wise; but a fragment that begins with literal characters cannot match a word that
+        # does not begin with them
+        lit = re.match(r"^[A-Za-z0-9_-]+", rx)
+        if lit and "|" not in rx and "(?i)" not in tok:
+            prefix = lit.group(0)
+            if len(rx) > len(prefix) and rx[len(prefix)] in "?*{":
+                prefix = prefix[:-1]
+            if prefix and not word.startswith(prefix):
+                return False
         return None
     try:
         return re.fullmatch(rx, word) is not None
@@ -388,14 +548,14 @@ def check_order_config(cfg_nested, orderer, rules, neg, exact=False):
     walk(before, got, rules, ())
 
     def walk_rank(outp, rules, path):
-        ranked = [(ref_rank(r, rules, neg), r) for r, _ in outp if not r.startswith(neg + " ")]
+        ranked = [(ref_rank(r, rules, neg, False), r) for r, _ in outp if not r.startswith(neg + " ")]
         ranked = [x for x in ranked if x[0] is not None]
         if [x for x in ranked] != sorted(ranked, key=lambda x: x[0]) and not any(f[0].endswith("order_config:rank-violated") for f in fails):
             fails.append(("bounded:C08:order_config:rank-violated", "in block %r a row matched by a later rule precedes one matched by an "
                           "earlier rule" % (list(path),), [r for _, r in sorted(ranked, key=lambda x: x[0])], [r for _, r in ranked]))
         for r, c in outp:
             if c:
-                walk_rank(c, child_rules(r, rules, neg), path + (r,))
+                walk_rank(c, child_rules(r, rules, neg, False), path + (r,))
 
     if exact:
         try:
@@ -517,13 +677,24 @@ def small_rank_cases(tier, seed):
             for fam in ("a", "c"):
                 for k in range(4):
                     books.append(list(perm[:k]) + ["%s %s %%order_reverse" % (neg, fam)] + list(perm[k:]))
-            for lines in books:
+            # a pin written WITHOUT the negation word (`x %order_reverse`) at every position, alone and next to the rule `<neg> x`
+            xbooks = []
+            for k in range(4):
+                xbooks.append(list(perm[:k]) + ["x %order_reverse"] + list(perm[k:]))
+                xbooks.append(["%s x" % neg] + list(perm[:k]) + ["x %order_reverse"] + list(perm[k:]))
+                xbooks.append(list(perm[:k]) + ["x %order_reverse"] + list(perm[k:]) + ["%s x" % neg])
+            xbooks.append(list(perm[:2]) + ["%s x" % neg] + list(perm[2:]))
+            for lines in books + xbooks:
+                has_x = lines in xbooks
                 for nested in (False, True):
                     if vendor == "cisco" and nested:
                         continue
                     order = ("blk\n" + "".join("    %s\n" % ln for ln in lines)) if nested else "".join(ln + "\n" for ln in lines)
-                    sel = rnd.sample(pairs, len(pairs) // (48 if tier == "quick" else 6))
+                    sel = rnd.sample(pairs, len(pairs) // ((48 if tier == "quick" else 6) * (3 if has_x else 1)))
                     for (o, n) in sel:
+                        if has_x:       # the negated config row goes away (removal command `x 1`), another one may come
+                            o = o + [["%s x 1" % neg, []]]
+                            n = n + ([["%s x 2" % neg, []]] if rnd.random() < 0.4 else [])
                         if nested:
                             o, n = [["blk 1", o]], [["blk 1", n]]
                         yield dict(kind="rank", vendor=vendor, rul=rnd.choice(["R1", "R2", "R2"]), order=order, old=o, new=n)
@@ -540,13 +711,14 @@ def cases(tier, seed):
         for k in range(n_rb if vendor == "huawei" else n_rb // 3):
             order = rand_order_text(rnd, neg)
             for _ in range(n_pairs):
-                old, new = g.rand_pair(rnd, 0.55)
+                old, new = add_x(rnd, *g.rand_pair(rnd, 0.55), neg)
                 yield dict(kind="rank", vendor=vendor, rul=("R1" if k % 2 else "R2"), order=order, old=old, new=new)
     rnd = g.rng(seed, "c08sort")
     for _ in range(300 if quick else 20000):
         yield dict(kind="sort", tree=rand_keyed_tree(rnd))
     for s in g.corpus():
         yield dict(kind="shipped", name=s["name"], max_del=(4 if quick else 12))
+    yield from shipped_pin_cases(tier, seed)
     for s in g.corpus():
         for side in ("old", "new"):
             yield dict(kind="oc", rb="shipped", model=s["model"], name=s["name"], side=side)
@@ -572,6 +744,9 @@ def run_case(case):
         return check_sort_case(case), 1, any(ch for _, _, ch in case["tree"])
     if case["kind"] == "shipped":
         return check_shipped_case(case)
+    if case["kind"] == "shipped_pin":
+        f, n = check_shipped_pin_case(case)
+        return f, 1, n >= 2
     if case["kind"] == "oc":
         f, n = check_oc_case(case)
         return f, 1, n >= 2
@@ -599,8 +774,8 @@ def run(tier="quick", seed=0, part=0, nparts=1):
                 per_key[key] = per_key.get(key, 0) + 1
                 failures.append(_j(dict(key=key, text=text, case=case, expected=exp, actual=act)))
     return dict(evaluations=ev, nontrivial=sorted(nontrivial), failures=failures, samples=samples,
-                rule="rank: seeded random ordering rulebooks (families a,b,c,d,blk/sub nested to depth 3, split rules, %order_reverse "
-                     "pins, %global; sibling languages disjoint by construction and re-checked) x (old,new) over a 20-row alphabet x 2 "
+                rule="rank: seeded random ordering rulebooks (families a,b,c,d,blk/sub nested to depth 3, a family x of negated config rows, "
+                     "split rules, %order_reverse pins written with and without the negation word, %global; sibling languages disjoint by construction and re-checked) x (old,new) over a 20-row alphabet x 2 "
                      "patching rulebooks on huawei (undo) and cisco (no); sort: random keyed PatchTrees; shipped: every corpus sample x "
                      "deletion of each unchanged top-level row / insertion of a foreign row at front, middle, end; oc: order_config "
                      "laws on 14 hardware models (all vendors) with corpus configs, configs built from the literal rules of the "
